@@ -11,6 +11,17 @@ from _rowmachine import prepare
 MODULE = "SynRBLModel.Properties.C14"
 
 
+# reactions whose reactants hold the tokens the rule constraint treats as hydrogen acceptors (alkali metals, hydride) or
+# molecules that merely contain such an atom, in first / middle / last position: the verdict must not depend on where the
+# token stands or how its neighbours are written
+MARKER_BASE = [
+    "CCO.[Na+].[H-]>>CC[O-].[Na+]", "[H-].[Na+].CCO>>CC[O-].[Na+]", "CC(C)(C)O.[K+].[H-]>>CC(C)(C)[O-].[K+]", "[Li+].[H-].OCC>>[Li+].[O-]CC",
+    "CCO.CCO.[Na].[Na]>>CC[O-].CC[O-].[Na+].[Na+]", "[Na].[Na].OCC.OCC>>CC[O-].CC[O-].[Na+].[Na+]", "OCCO.[K].[K]>>[O-]CC[O-].[K+].[K+]",
+    "[Li].[Li].OCCCO>>[O-]CCC[O-].[Li+].[Li+]", "CCO.CO[Na]>>CC=O.CO[Na]", "[Na]OC.CCO>>CC=O.[Na]OC", "OC(C)C.CC(C)(C)O[K]>>CC(C)=O.CC(C)(C)O[K]",
+    "CC(=O)C.[Na+].[H-]>>CC(O)C.[Na+]", "c1ccccc1O.[K].[K].Oc1ccccc1>>[O-]c1ccccc1.[O-]c1ccccc1.[K+].[K+]",
+]
+
+
 def respell(rng, rxn, mode):
     """an equivalent spelling of a (map-free) reaction"""
     sides = rxn.split(">>")
@@ -41,6 +52,8 @@ def respell(rng, rxn, mode):
             new.append(s)
         if mode == "shuffle":
             rng.shuffle(new)
+        if mode == "reverse":
+            new.reverse()
         out.append(".".join(new))
     return ">>".join(out)
 
@@ -106,10 +119,10 @@ def build(ctx, n):
             if r.get("solved") and r.get("solved_by") in ("input-balanced", "rule-based") and pipeline.is_small(inp, 60)]
     rng = ctx.rng
     rng.shuffle(cand)
-    base = [remove_atom_mapping(inp) for inp, _ in cand[:n]]
+    base = [remove_atom_mapping(inp) for inp, _ in cand[:n]] + list(MARKER_BASE)
     variants = []
     for i, s in enumerate(base):
-        for mode in ("random", "kekule", "maps", "shuffle"):
+        for mode in ("random", "kekule", "maps", "shuffle", "reverse"):
             t = respell(rng, s, mode)
             if t is not None and t != s:
                 variants.append((i, mode, t))
@@ -155,7 +168,8 @@ def run(ctx):
         ctx,
         MODULE,
         "reactions of the shared workload whose outcome is input-balanced or rule-based, each rewritten as: RDKit random SMILES "
-        "per molecule, kekulised form, random atom-map numbers, shuffled molecule order per side; base and variants run through "
+        "per molecule, kekulised form, random atom-map numbers, shuffled and reversed molecule order per side, plus 13 reactions whose "
+        "reactants hold alkali-metal / hydride tokens or molecules containing such atoms in first / middle / last position; base and variants run through "
         "the real pipeline (traced and compared with the Lean row machine); statement at the stage before post-processing: same "
         "verdict (solved, method) and the same multiset of added molecules per side (canonical SMILES); final verdict equal; the "
         "base rows and their variants are run once more inside one single-worker batch behind context rows with the same "
